@@ -6,7 +6,10 @@ from func_adl import EventDataset, func_adl_callable, func_adl_callback, func_ad
 
 from vlib.sh.common import HI, LO, TWIN, L, dump, nt, pick, tick
 
+import os
+
 LOG = []
+QUICK = os.environ.get("VERIF_TIER_NOW", "quick") == "quick"
 
 
 def cb_trk_class(s, a):
@@ -27,7 +30,7 @@ def cb_jet_pt(s, a):
 def cb_jet_rewrite(s, a):
     "returns another call site: renamed method, extra argument"
     LOG.append(("method", "Jet", a.func.attr))
-    new = ast.Call(ast.Attribute(a.func.value, "mass_rewritten", L), list(a.args) + [ast.Constant(42)], [])
+    new = ast.Call(ast.Attribute(a.func.value, "mass_rewritten", L), [ast.Constant(2.5), ast.Constant(42)], [])     # replaces the argument the user wrote, adds one
     return s.MetaData({"tag": "jet_mass"}), new
 
 
@@ -39,8 +42,9 @@ def cb_evt_rw(s, a):
 
 
 def cb_calib(s, a):
+    "function processor that returns another call site"
     LOG.append(("func", "calib", len(a.args)))
-    return s.MetaData({"tag": "calib"}), a
+    return s.MetaData({"tag": "calib"}), ast.Call(ast.Name("calib_rewritten", L), list(a.args), [])
 
 
 def cb_param(s, a, param):
@@ -65,7 +69,7 @@ class Jet:
     def idx(self) -> int: ...  # noqa
 
     @func_adl_callback(cb_jet_rewrite)
-    def mass(self, scale: float = 1.0) -> float: ...  # noqa
+    def mass(self, scale: float = 1.0, order: int = 2) -> float: ...  # noqa   (the call site gives scale only: the follower fills order in, i.e. works on a copy of the call)
 
     def Tracks(self) -> Iterable[Trk]: ...  # noqa
 
@@ -138,7 +142,7 @@ def site(i, jv, k, s):
         return P("e.lead_mu().p()")
     if i == 8:   # a callback that returns a new call node, with a callback-bearing call site chained on its result (independent of jv)
         return P("e.lead_rw().pt()")
-    return P("%s.mass()" % jv)
+    return P("%s.mass(3.0)" % jv)
 
 
 def expected_log(mask, k, s):
@@ -175,6 +179,8 @@ def c09(code: int, m2: int, m3: int, k: int) -> str:
     place, mlow = code // 16, code % 16
     mask = mlow | (pick(m2, 0, 16) << 4) | (pick(m3, 0, 2) << 8)
     present = [i for i in range(NSITES) if (mask >> i) & 1]
+    if QUICK and 3 < len(present) < NSITES:
+        return ""     # quick tier: every subset of at most 3 call sites, and all of them together
     # placement: 0 = sites inside e.Jets().Select(lambda j: ...); 1 = sites on e.lead() directly in the stream lambda; 2 = Where over jets inside SelectMany;
     # 3 = as 2, the nested lambda handed to Where by keyword
     jv = "j" if place != 1 else "e.lead()"
@@ -199,7 +205,11 @@ def c09(code: int, m2: int, m3: int, k: int) -> str:
     del LOG[:]
     tick()
     try:
-        st = getattr(TDS(), op)(lam)
+        if 5 in present:
+            st = getattr(TDS(), op)(lam)
+        else:
+            with nt():      # the only symbolic value (the property parameter) is not in this query: nothing for the tracer to follow
+                st = getattr(TDS(), op)(lam)
     except Exception as e:
         return "raised %s: %s" % (type(e).__name__, e)
     exp = expected_log(mask, k, s)
@@ -245,6 +255,12 @@ def c09(code: int, m2: int, m3: int, k: int) -> str:
             rw = [x for x in calls if isinstance(x.func, ast.Attribute) and x.func.attr == "mass_rewritten"]
             if len(rw) != 1 or len(rw[0].args) != 2 or any(isinstance(x.func, ast.Attribute) and x.func.attr == "mass" for x in calls):
                 return "the call-site rewrite returned by the callback is not what the query contains"
+            if [getattr(x, "value", None) for x in rw[0].args] != [2.5, 42]:
+                return "the arguments of the call site returned by the callback are not what the query contains: " + dump(rw[0])[:200]
+        if 4 in present:
+            rw = [x for x in calls if isinstance(x.func, ast.Name) and x.func.id == "calib_rewritten"]
+            if len(rw) != 1 or any(isinstance(x.func, ast.Name) and x.func.id == "calib" for x in calls):
+                return "the call-site rewrite returned by the function processor is not what the query contains"
         if 8 in present:
             rw = [x for x in calls if isinstance(x.func, ast.Attribute) and x.func.attr == "lead_rewritten"]
             if len(rw) != 1 or any(isinstance(x.func, ast.Attribute) and x.func.attr == "lead_rw" for x in calls):
